@@ -123,6 +123,14 @@ func build(spec schemaSpec, ms []member, idx int) (s *model.Schema, decl, ref st
 		s.Def = true
 		s.DefName = fmt.Sprintf("#S%d", idx)
 		return s, fmt.Sprintf("%s: %s\n", s.DefName, s.Lit()), s.DefName
+	case "deflet": // a let alias of a definition
+		s.Def = true
+		s.DefName = fmt.Sprintf("LA%d", idx)
+		return s, fmt.Sprintf("#S%d: %s\nlet LA%d = #S%d\n", idx, s.Lit(), idx, idx), s.DefName
+	case "defletfield": // a let alias of a field of a definition
+		s.Def = true
+		s.DefName = fmt.Sprintf("LF%d", idx)
+		return s, fmt.Sprintf("#T%d: {f: %s}\nlet LF%d = #T%d.f\n", idx, s.Lit(), idx, idx), s.DefName
 	case "defindex": // a field of a definition reached through an index expression
 		s.Def = true
 		name := fmt.Sprintf("#T%d", idx)
@@ -219,6 +227,15 @@ func run(r *core.Run) {
 	r.Section("single schema, <=3 members x 6 reaches")
 	subsets(len(ms), 3, func(ix []int) bool {
 		for _, rc := range reaches {
+			if !do([]schemaSpec{{append([]int{}, ix...), rc}}, false) {
+				return false
+			}
+		}
+		return true
+	})
+	r.Section("single schema, <=2 members, reached through a let alias of a definition or of a definition's field")
+	subsets(len(ms), 2, func(ix []int) bool {
+		for _, rc := range []string{"deflet", "defletfield"} {
 			if !do([]schemaSpec{{append([]int{}, ix...), rc}}, false) {
 				return false
 			}
